@@ -321,18 +321,25 @@ def run(ctx):
                                           'no_failing_input_found': True,
                                           'theorem': 'C03 table theorem over this row no longer checks'},
                                'suffix': ' no-failing-input-found'})
+    # "the set of child sequences it can ever accept is exactly the language": run-time tie of the
+    # templates to the matcher (same correspondence engine as C01/C02)
+    from props import matcher_common as mc
+    mres = mc.generic_run(ctx, 'C02', ['word', 'worddup', 'worddel', 'addonly', 'perm', 'mixed', 'word', 'fwd'], n_quick=8, n_thorough=80)
+    for v in mres['violations']:
+        v['replay']['property'] = 'C03'
+        violations.append(v)
     n_rows = (len(impl['elements']) + len(impl['templates']) + len(impl['instance_templates']) +
               sum(len(v.get('rows', [])) for v in impl['complex_types'].values()) + len(impl['simple_types']) +
               len(impl['attr_groups']) + len(impl['model_groups']))
     samples = [{'table': 'templates', 'key': 'pitch', 'impl': impl['templates']['XSDComplexTypePitch']['tree']},
                {'table': 'attributes', 'key': 'XSDComplexTypeNote', 'rows': impl['complex_types']['XSDComplexTypeNote']['rows'][:4]},
                {'table': 'elements', 'row': impl['elements'][0]}]
-    return {'violations': violations, 'known': known, 'evaluations': n_rows, 'distinct_nontrivial': n_rows,
+    return {'violations': violations, 'known': known, 'evaluations': n_rows + mres['evaluations'], 'distinct_nontrivial': n_rows,
             'rule': 'complete finite tables regenerated from the live library and the pinned schema: every element class, '
                     'container template (process-wide and per-instance), attribute row, simple type, model/attribute group; '
                     'each row is one case (all distinct by key); exhaustive',
-            'samples': samples, 'disagreements': checked,
-            'coverage': {'exhaustive': True, 'table_diffs_python_mirror': [list(map(str, d)) for d in diffs][:20],
+            'samples': samples, 'disagreements': checked + mres['disagreements'],
+            'coverage': {'exhaustive': True, 'matcher_correspondence': mres['coverage'], 'table_diffs_python_mirror': [list(map(str, d)) for d in diffs][:20],
                          'tables': {'elements': len(impl['elements']), 'templates': len(impl['templates']),
                                     'instance_templates': len(impl['instance_templates']),
                                     'complex_types': len(impl['complex_types']), 'simple_types': len(impl['simple_types']),
